@@ -1,11 +1,91 @@
-(* Trend/Props.v — property C25 (being written): refutation witnesses on the models that the check runs *)
+(* Trend/Props.v — property C25: "trend aggregation counts are correct and unaffected by sharing".
+
+   The property FAILS on the code (GretaExecutor, HamletAggregator, Engine .trend_aggregate()); the failures
+   are recorded as known findings, class by class, in /verif/known_findings.json.  This file states
+     * the specification and its efficient equivalent (C25_dp_spec),
+     * what does hold: outside the class Known_C25_hamlet the Hamlet model is correct and unaffected by sharing
+       (C25_hamlet_correct, C25_sharing_invariant),
+     * machine-checked witnesses that the property fails inside the classes, on the very models that the check
+       ties to the code on every run (C25_*_refuted).                                                          *)
 From Coq Require Import String.
-From VP Require Import Base.Tactics Trend.Model.
+From VP Require Import Base.Tactics Trend.Model Trend.Proofs Trend.ProofsHamlet.
 Open Scope N_scope.
 
-Definition qAB : query := {| q_types := [65; 66]; q_kleene := [1%nat] |}.      (* A B+ *)
-Definition qCB : query := {| q_types := [67; 66]; q_kleene := [1%nat] |}.      (* C B+ *)
+(* The GRETA-style dynamic programme (one counter per pattern state, linear in the stream) computes exactly the
+   number of event trends obtained by enumerating all sub-sequences: for every query and every stream. *)
+Theorem C25_dp_spec : forall q es, dp_count q es = trends q es.
+Proof. exact dp_count_trends. Qed.
 
-(* one trend (A B), HamletAggregator::flush reports 3 *)
-Theorem C25_hamlet_correct_refuted : exists q es, nth 0 (h_flush [q] es) 0 <> trends q es.
-Proof. exists qAB, [65; 66]. vm_compute. discriminate. Qed.
+(* ---- finding classes (decidable predicates on the input) ---- *)
+
+(* hamlet-kleene-count: the stream contains an event of one of the query's Kleene types *)
+Definition Known_C25_hamlet (q : query) (es : list N) : Prop := exists t, In t es /\ memN t (kleene_types q) = true.
+
+Lemma not_known_no_kleene : forall q es, ~ Known_C25_hamlet q es -> no_kleene_event q es.
+Proof.
+  intros q es H t Ht. destruct (memN t (kleene_types q)) eqn:E; [|reflexivity].
+  exfalso. apply H. exists t. now split.
+Qed.
+
+(* Outside the class, HamletAggregator is right: a registered query with a Kleene step reports the number of
+   trends at flush (which is 0: every trend needs an event of the Kleene type) and never reports anything
+   incrementally - whatever other queries are registered next to it. *)
+Theorem C25_hamlet_correct : forall qs es i q,
+  nth_error qs i = Some q -> has_kleene q -> ~ Known_C25_hamlet q es ->
+  nth i (h_flush qs es) 0 = trends q es /\
+  forall k out, nth_error (h_reports qs es) k = Some out -> nth_error out i = Some None.
+Proof.
+  intros qs es i q A G H. pose proof (not_known_no_kleene q es H) as Hn.
+  destruct (hamlet_silent qs es i q A G Hn) as [H1 H2]. split; [|exact H2].
+  rewrite H1. symmetry. now apply trends_zero.
+Qed.
+
+(* ... and so running the query next to other queries reports the same value as running it alone *)
+Theorem C25_sharing_invariant : forall qs es i q,
+  nth_error qs i = Some q -> has_kleene q -> ~ Known_C25_hamlet q es ->
+  nth i (h_flush qs es) 0 = nth 0 (h_flush [q] es) 0.
+Proof.
+  intros qs es i q A G H.
+  destruct (C25_hamlet_correct qs es i q A G H) as [H1 _].
+  destruct (C25_hamlet_correct [q] es 0 q eq_refl G H) as [H2 _]. congruence.
+Qed.
+
+(* ---- inside the classes the property fails: witnesses (replayed against the code by checks/C25.py) ---- *)
+Definition qAB : query := {| q_types := [65; 66]; q_kleene := [1%nat] |}.        (* A B+ *)
+Definition qCB : query := {| q_types := [67; 66]; q_kleene := [1%nat] |}.        (* C B+ *)
+Definition qBA : query := {| q_types := [66; 65]; q_kleene := [1%nat] |}.        (* B A+ *)
+Definition qABC : query := {| q_types := [65; 66; 67]; q_kleene := [1%nat] |}.   (* A B+ C *)
+
+Example C25_hypotheses_satisfiable : has_kleene qAB /\ ~ Known_C25_hamlet qAB [65; 67; 65].
+Proof.
+  split; [exists 1%nat; split; [now left|cbn; lia]|].
+  intros (t & Ht & Hm). cbn in Ht. destruct Ht as [<-|[<-|[<-|[]]]]; vm_compute in Hm; discriminate.
+Qed.
+
+(* stream A B: one trend; HamletAggregator::flush reports 3 *)
+Theorem C25_hamlet_correct_refuted :
+  exists q es, Known_C25_hamlet q es /\ nth 0 (h_flush [q] es) 0 <> trends q es.
+Proof.
+  exists qAB, [65; 66]. split; [exists 66; split; [cbn; auto|reflexivity]|]. vm_compute. discriminate.
+Qed.
+
+(* stream A B C, query A B+ C: one trend; the incremental report after C says 2 *)
+Theorem C25_hamlet_incremental_refuted :
+  exists q es out, nth_error (h_reports [q] es) 2 = Some out /\ nth_error out 0 = Some (Some 2) /\ trends q es = 1.
+Proof. exists qABC, [65; 66; 67], [Some 2]. vm_compute. auto. Qed.
+
+(* stream A B B: A B+ reports 5 alone and 3 when C B+ is registered next to it (and C B+ reports a trend
+   although no C occurs) *)
+Theorem C25_sharing_invariant_refuted :
+  exists q q' es, nth 0 (h_flush [q; q'] es) 0 <> nth 0 (h_flush [q] es) 0 /\ nth 1 (h_flush [q; q'] es) 0 <> trends q' es.
+Proof. exists qAB, qCB, [65; 66; 66]. vm_compute. split; discriminate. Qed.
+
+(* GretaExecutor: stream A B B has three trends; the executor reports 1 and then 4 = 1 + 3 *)
+Theorem C25_greta_correct_refuted :
+  exists q es, g_flush [q] es <> [trends q es] /\ snd (g_run [q] (g_init [q]) es) = [[0]; [1]; [4]].
+Proof. exists qAB, [65; 66; 66]. vm_compute. split; [discriminate|reflexivity]. Qed.
+
+(* GretaExecutor: the count of A B+ on A B A B depends on whether B A+ is registered *)
+Theorem C25_greta_sharing_refuted :
+  exists q q' es, nth 0 (g_flush [q; q'] es) 0 <> nth 0 (g_flush [q] es) 0.
+Proof. exists qAB, qBA, [65; 66; 65; 66]. vm_compute. discriminate. Qed.
